@@ -45,6 +45,9 @@ var menu = []menuPos{
 	{name: "capture-into-dead-draw", turn: board.White, pieces: []board.Placement{pl(board.E1, board.White, board.King), pl(board.C1, board.White, board.Bishop), pl(board.E8, board.Black, board.King), pl(board.G5, board.Black, board.Pawn)}},
 	// 9: K+Q+R v K with mates of different length in one node (a mate in one and longer mates at the root)
 	{name: "two-mates", turn: board.White, pieces: []board.Placement{pl(board.H7, board.White, board.King), pl(board.D7, board.White, board.Rook), pl(board.D5, board.White, board.Queen), pl(board.E8, board.Black, board.King)}},
+	// 10: a capture that forces mate in three plies (Rxb3, Kh8, Rh3#) is ordered before the quiet mate in one (Rh3#):
+	// few moves per node, so depth 3 is within reach (the shape seeded change C03_B needs)
+	{name: "long-mate-first", turn: board.White, pieces: []board.Placement{pl(board.F7, board.White, board.King), pl(board.G5, board.White, board.Pawn), pl(board.C3, board.White, board.Rook), pl(board.B2, board.White, board.Pawn), pl(board.H7, board.Black, board.King), pl(board.B3, board.Black, board.Pawn)}},
 }
 
 // harnessZobrist: a fixed table of distinct words (splitmix64); only hash equality matters.
@@ -296,6 +299,9 @@ func Harness_C03_T8_D2() { harnessAlphaBeta(8, 2, leafCount()) }
 func Harness_C03_T7_D2() { harnessAlphaBeta(7, 2, leafCount()) }
 func Harness_C03_T7_D3() { harnessAlphaBeta(7, 3, leafCount()) }
 func Harness_C03_T9_D4() { harnessAlphaBeta(9, 4, 1) }
+func Harness_C03_T10_D2() { harnessAlphaBeta(10, 2, 1) }
+func Harness_C03_T10_D3() { harnessAlphaBeta(10, 3, 1) }
+func Harness_C03_T10_D4() { harnessAlphaBeta(10, 4, 1) }
 
 // leafCount: two free leaf values in both tiers (three were used by the thorough tier, whose
 // run on the final tree did not finish within 50 minutes; nothing is claimed for it)
